@@ -151,7 +151,7 @@ def fingerprint(root):
         out.append((
             type(node).__name__, id(node), id(node.parent) if node.parent is not None else None, node.arg_key, node.index,
             tuple(node.comments) if node.comments else None,
-            _tstr(node._type, Expr),
+            _tstr(node, Expr),
             repr(sorted(node._meta.items(), key=repr)) if node._meta else None,
         ))
         for key, v in node.args.items():
@@ -178,7 +178,7 @@ def structure(root):
     while stack:
         node = stack.pop()
         out.append((type(node).__name__, node.arg_key, node.index, tuple(node.comments) if node.comments else None,
-                    _tstr(node._type, Expr),
+                    _tstr(node, Expr),
                     repr(sorted(node._meta.items(), key=repr)) if node._meta else None))
         for key, v in node.args.items():
             if isinstance(v, Expr):
@@ -211,10 +211,16 @@ def _noid(x):
     return x
 
 
-def _tstr(ty, Expr):
+def _tstr(node, Expr):
+    """Fingerprint of a node's type annotation. exp.cast() annotates a Cast with its own `to` node (the same object), so
+    for nodes that have a `to` argument the annotation is compared by identity only: its contents are a tree node (or a
+    former one) that the caller may legitimately edit or re-attach elsewhere."""
+    ty = node._type
     if ty is None:
         return None
     if isinstance(ty, Expr):
+        if "to" in node.arg_types:
+            return "type@%d" % id(ty)
         try:
             return ty.sql()
         except Exception:
